@@ -42,7 +42,11 @@ func runC08(args []string) {
 	points := 0
 	corpus.forEachType(false, func(ch *core.Child, t *CType) {
 		vg := codec.NewVG(t.Ctx, r.Seed)
-		vals := vg.Records(t.Def, nv*2)
+		// the first value (everything present) and those that add the most wire features
+		var vals []any
+		for _, ev := range pickRich(t, encodeValues(ch, t, vg.Records(t.Def, 12)), nv) {
+			vals = append(vals, ev.V)
+		}
 		done := 0
 		seen := map[string]bool{}
 		for _, v := range vals {
